@@ -14,6 +14,8 @@ package l4tls
 
 import (
 	"bytes"
+	"net/netip"
+	"unicode"
 	"context"
 	"encoding/json"
 	"sync"
@@ -388,8 +390,12 @@ func vC07GenCfg(r *vRng, i int) vC07Cfg {
 	default:
 		c.name = vC07RandName(r)
 	}
-	switch r.Intn(7) {
+	switch r.Intn(9) {
 	case 0:
+	case 7, 8:
+		// ids that differ from the common ones in letter case, whitespace, a trailing dot, a prefix
+		c.protos = [][]string{{"H2", "HTTP/1.1"}, {"Acme-TLS/1"}, {"HTTP/1.1", "spdy"}, {"h2 ", "http/1.1."}, {"H2", "h2"}, {"h", "http/1"}, {"h2x", " h2"},
+			{"\xd2\xbb2"}, {"http/1.1\x00"}, {"DOT", "H3"}}[r.Intn(10)]
 	case 1:
 		c.protos = []string{"h2", "http/1.1"}
 	case 2:
@@ -709,6 +715,162 @@ func vC07MatchOn(lineage context.Context, p []byte, subs []caddytls.ConnectionMa
 		res.set = false
 	}
 	return res, cx.Context
+}
+
+
+// ---------------------------------------------------------------- reference semantics of the sub-matchers
+// alpn: RFC 7301 protocol ids are opaque byte strings; Go's TLS server reports them verbatim and
+// selects by exact comparison.  A configured value matches iff it is byte for byte one of the ids.
+func vC07SpecAlpn(cfg, client []string) bool {
+	for _, a := range cfg {
+		for _, p := range client {
+			if len(a) == len(p) && bytes.Equal([]byte(a), []byte(p)) {
+				return true
+			}
+		}
+	}
+	return false
+}
+
+// sni: caddytls.MatchServerName ("names may use left-most-label wildcards") compares with
+// certmagic.MatchWildcard, "DNS wildcard matching logic, case-insensitive": equal after
+// lower-casing, or the pattern is the name with its k >= 1 left-most labels each replaced by "*"
+// (empty labels stay empty and are not a place to stop).
+func vC07SpecSni(cfg []string, name string) bool {
+	sub := strings.Split(strings.ToLower(name), ".")
+	for _, c := range cfg {
+		lc := strings.ToLower(c)
+		if lc == strings.ToLower(name) {
+			return true
+		}
+		pat := strings.Split(lc, ".")
+		if len(pat) != len(sub) || !strings.Contains(lc, "*") {
+			continue
+		}
+		for k := 0; k < len(sub); k++ {
+			if sub[k] == "" {
+				continue
+			}
+			ok := true
+			for x := range sub {
+				want := sub[x]
+				if x <= k && sub[x] != "" {
+					want = "*"
+				}
+				if pat[x] != want {
+					ok = false
+					break
+				}
+			}
+			if ok {
+				return true
+			}
+		}
+	}
+	return false
+}
+
+// remote_ip / local_ip: in one of ranges (when any) and in none of not_ranges
+func vC07SpecIP(addr string, ranges, notRanges []string) bool {
+	ap, err := netip.ParseAddrPort(addr)
+	if err != nil {
+		return false
+	}
+	in := func(l []string) bool {
+		for _, s := range l {
+			if strings.Contains(s, "/") {
+				if pf, err := netip.ParsePrefix(s); err == nil && pf.Contains(ap.Addr()) {
+					return true
+				}
+			} else if a, err := netip.ParseAddr(s); err == nil && a == ap.Addr() {
+				return true
+			}
+		}
+		return false
+	}
+	return (len(ranges) == 0 || in(ranges)) && (len(notRanges) == 0 || !in(notRanges))
+}
+
+func vC07SwapCase(s string) string {
+	return strings.Map(func(c rune) rune {
+		switch {
+		case unicode.IsLower(c):
+			return unicode.ToUpper(c)
+		case unicode.IsUpper(c):
+			return unicode.ToLower(c)
+		}
+		return c
+	}, s)
+}
+
+// values that equal v or miss it narrowly
+func vC07Near(r *vRng, v string) string {
+	look := strings.NewReplacer("a", "\u0430", "e", "\u0435", "o", "\u043e", "h", "\u04bb", "c", "\u0441", "p", "\u0440", "i", "\u0456")
+	switch r.Intn(16) {
+	case 0, 1, 2:
+		return v
+	case 3:
+		return vC07SwapCase(v)
+	case 4:
+		return strings.ToUpper(v)
+	case 5:
+		return strings.ToLower(v)
+	case 6:
+		return v + "."
+	case 7:
+		return v + " "
+	case 8:
+		return " " + v
+	case 9:
+		if len(v) > 1 {
+			return v[:len(v)-1]
+		}
+		return ""
+	case 10:
+		if len(v) > 1 {
+			return v[1:]
+		}
+		return ""
+	case 11:
+		return v + "x"
+	case 12:
+		return ""
+	case 13:
+		return look.Replace(v)
+	case 14:
+		return strings.TrimSuffix(v, ".")
+	default:
+		return v + "\x00"
+	}
+}
+
+func vC07NearSni(r *vRng, name string) string {
+	switch r.Intn(8) {
+	case 0:
+		if i := strings.IndexByte(name, '.'); i >= 0 {
+			return "*" + name[i:] // the wildcard that covers name
+		}
+		return "*"
+	case 1:
+		return "*." + name // one label too many
+	case 2:
+		if i := strings.LastIndexByte(name, '.'); i >= 0 {
+			return name[:i] + ".*" // wildcard in the last label
+		}
+		return "*." + name
+	case 3:
+		if i := strings.IndexByte(name, '.'); i >= 0 {
+			return "*" + vC07SwapCase(name[i:])
+		}
+		return vC07SwapCase(name)
+	case 4:
+		if i := strings.IndexByte(name, '.'); i >= 0 {
+			return "*.*" + name[i:]
+		}
+		return "*.*"
+	default:
+		return vC07Near(r, name)
+	}
 }
 
 // ---------------------------------------------------------------- mutations
@@ -1175,6 +1337,29 @@ func TestVerifC07(t *testing.T) {
 		out.Case(fmt.Sprintf("CVersMax %d %s", m, vC07ZL(supportedVersionsFromMax(m))), "versmax", m >= 0x0301, fmt.Sprintf("max=%#x", m))
 	}
 
+	// the alpn sub-matcher on a table of exact and near-miss pairs (configured values, client ids)
+	alpnTable := []struct{ cfg, client []string }{
+		{[]string{"h2"}, []string{"h2"}}, {[]string{"h2"}, []string{"H2"}}, {[]string{"H2"}, []string{"h2"}}, {[]string{"h2", "http/1.1"}, []string{"H2"}},
+		{[]string{"http/1.1"}, []string{"HTTP/1.1", "spdy"}}, {[]string{"h2", "http/1.1"}, []string{"HTTP/1.1", "spdy"}}, {[]string{"acme-tls/1"}, []string{"Acme-TLS/1"}},
+		{[]string{"acme-tls/1"}, []string{"acme-tls/1"}}, {[]string{"h2"}, []string{"h2 "}}, {[]string{"h2 "}, []string{"h2"}}, {[]string{"h2"}, []string{" h2"}}, {[]string{"h2"}, []string{"h"}},
+		{[]string{"h"}, []string{"h2"}}, {[]string{"h2"}, []string{"h2x"}}, {[]string{"h2."}, []string{"h2"}}, {[]string{""}, []string{"h2"}}, {[]string{""}, nil}, {[]string{"h2"}, nil},
+		{nil, []string{"h2"}}, {[]string{"\xd2\xbb2"}, []string{"h2"}}, {[]string{"h2"}, []string{"\xd2\xbb2"}}, {[]string{"h2\x00"}, []string{"h2"}}, {[]string{"\xe2\x84\xaa"}, []string{"k"}}, {[]string{"k"}, []string{"\xe2\x84\xaa"}},
+		{[]string{"\xc5\xbf"}, []string{"s"}}, {[]string{"nope", "H3"}, []string{"h2", "h3"}}, {[]string{"nope", "h3"}, []string{"h2", "h3"}}, {[]string{"dot"}, []string{"DoT"}}, {[]string{"\xff\xfe"}, []string{"\xff\xfe"}},
+		{[]string{"\xff\xfe"}, []string{"\xff\xfd"}}, {[]string{"http/1.1"}, []string{"http/1.0", "http/1.1"}}, {[]string{"http/1.1"}, []string{"http/1.10"}},
+	}
+	for _, e := range alpnTable {
+		am := MatchALPN(e.cfg)
+		got := am.Match(&tls.ClientHelloInfo{SupportedProtos: e.client})
+		if spec := vC07SpecAlpn(e.cfg, e.client); got != spec {
+			out.Fail("C07:alpn-matcher:inexact-match", fmt.Sprintf("alpn %q on client protocols %q: matcher says %v; ALPN ids are opaque byte strings (RFC 7301) and exact comparison says %v", e.cfg, e.client, got, spec),
+				map[string]any{"cfg": e.cfg, "client": e.client})
+		}
+		out.Case(fmt.Sprintf("CAlpn %s %s %s", vC07SL(e.cfg), vC07SL(e.client), cBool(got)), "alpn-matcher:table", len(e.client) > 0, nil)
+	}
+	ipCtx, ipCancel := caddy.NewContext(caddy.Context{Context: context.Background()})
+	defer ipCancel()
+	ipCtxOK := true
+
 	// resumption state
 	caches := map[int]tls.ClientSessionCache{}
 	if cert, err := vC07Cert(); err == nil {
@@ -1308,10 +1493,12 @@ func TestVerifC07(t *testing.T) {
 		}
 
 		// sub-matchers and the public path, for a few configurations derived from the hello
-		sniCfgs := [][]string{{"example.com"}, {"*.example.com", "*.example.org"}, {"other.test", seen.name}, {strings.ToLower(seen.name)}}
-		alpnCfgs := [][]string{{"h2"}, {"nope", "http/1.1"}, {"zzz"}}
+		sniCfgs := [][]string{{"example.com"}, {"*.example.com", "*.example.org"}, {"other.test", seen.name}, {strings.ToLower(seen.name)},
+			{vC07NearSni(r, seen.name)}, {"nope.test", vC07NearSni(r, seen.name)}, {vC07NearSni(r, "example.com")}}
+		alpnCfgs := [][]string{{"h2"}, {"nope", "http/1.1"}, {"zzz"}, {vC07Near(r, "h2"), vC07Near(r, "http/1.1")}, {vC07Near(r, "acme-tls/1")}}
 		if len(seen.protos) > 0 {
-			alpnCfgs = append(alpnCfgs, []string{"x", seen.protos[len(seen.protos)-1]})
+			last, any := seen.protos[len(seen.protos)-1], seen.protos[r.Intn(len(seen.protos))]
+			alpnCfgs = append(alpnCfgs, []string{"x", last}, []string{vC07Near(r, any)}, []string{vC07Near(r, last), "nope"}, []string{vC07SwapCase(any)})
 		}
 		sc := sniCfgs[r.Intn(len(sniCfgs))]
 		ac := alpnCfgs[r.Intn(len(alpnCfgs))]
@@ -1328,6 +1515,17 @@ func TestVerifC07(t *testing.T) {
 		if aA != aB {
 			out.Fail("C07:alpn-matcher:verdict-differs", fmt.Sprintf("alpn %q: %v on the server's hello info, %v on the matcher's", ac, aA, aB), desc)
 		}
+		// against the reference semantics, evaluated on what the crypto/tls server saw
+		specS, specA := vC07SpecSni(sc, seen.name), vC07SpecAlpn(ac, seen.protos)
+		if sB != specS {
+			out.Fail("C07:sni-matcher:differs-from-documented", fmt.Sprintf("sni %q on server name %q: matcher says %v; case-insensitive single-label-wildcard matching (caddytls.MatchServerName's documented semantics) says %v",
+				sc, seen.name, sB, specS), desc)
+		}
+		if aB != specA {
+			out.Fail("C07:alpn-matcher:inexact-match", fmt.Sprintf("alpn %q on client protocols %q (as Go's TLS server reports them): matcher says %v; ALPN ids are opaque byte strings (RFC 7301) and exact comparison says %v",
+				ac, seen.protos, aB, specA), desc)
+		}
+		sA, aA = specS, specA
 		out.Case(fmt.Sprintf("CAlpn %s %s %s", vC07SL(ac), vC07SL(b.SupportedProtos), cBool(aB)), "alpn-matcher", len(b.SupportedProtos) > 0, nil)
 
 		var subs []caddytls.ConnectionMatcher
@@ -1340,6 +1538,32 @@ func TestVerifC07(t *testing.T) {
 		}
 		mr := vC07Match(rec, subs)
 		want := (!useSni || sA) && (!useAlpn || aA)
+		// remote_ip / local_ip handshake matchers with ranges that contain or narrowly miss the peer
+		// (the scripted connection is 127.0.0.1:50000 -> 127.0.0.1:443)
+		if i%5 == 0 && ipCtxOK {
+			ipSets := [][]string{{"127.0.0.1"}, {"127.0.0.2"}, {"127.0.0.0/8"}, {"127.0.0.0/31"}, {"127.0.0.2/31"}, {"126.0.0.0/8", "10.0.0.0/8"}, {"::1"}, {"::ffff:127.0.0.1"}, {"0.0.0.0/0"}, {"127.0.0.1/32", "192.0.2.0/24"}, {}}
+			rg, nrg := ipSets[r.Intn(len(ipSets))], ipSets[r.Intn(len(ipSets))]
+			if r.Bool() {
+				nrg = nil
+			}
+			rm := &caddytls.MatchRemoteIP{Ranges: rg, NotRanges: nrg}
+			lm := &caddytls.MatchLocalIP{Ranges: rg}
+			if rm.Provision(ipCtx) == nil && lm.Provision(ipCtx) == nil {
+				useLocal := r.Bool()
+				var ipm caddytls.ConnectionMatcher = rm
+				specIP := vC07SpecIP("127.0.0.1:50000", rg, nrg)
+				if useLocal {
+					ipm = lm
+					specIP = vC07SpecIP("127.0.0.1:443", rg, nil)
+				}
+				ipr := vC07Match(rec, append(append([]caddytls.ConnectionMatcher{}, subs...), ipm))
+				stats["ip-matcher"]++
+				if (ipr.verdict == "Yes") != (want && specIP) || (ipr.verdict != "Yes" && ipr.verdict != "No") {
+					out.Fail("C07:ip-matcher:differs-from-documented", fmt.Sprintf("tls matcher with %T ranges %q not_ranges %q (peer 127.0.0.1:50000 -> 127.0.0.1:443) plus sni %q used=%v, alpn %q used=%v answered %s; the documented semantics give %v",
+						ipm, rg, nrg, sc, useSni, ac, useAlpn, ipr.verdict, want && specIP), desc)
+				}
+			}
+		}
 		if (mr.verdict == "Yes") != want || (mr.verdict != "Yes" && mr.verdict != "No") {
 			out.Fail("C07:match:verdict-differs", fmt.Sprintf("tls matcher (sni %q used=%v, alpn %q used=%v) answered %s; deciding on the crypto/tls server's view gives %v",
 				sc, useSni, ac, useAlpn, mr.verdict, want), desc)
